@@ -511,6 +511,32 @@ def eval_file(desc, ctx):
             U, V = force.velocity(stt.X, stt.Y, stt.Z)
             U, V = np.array(U, dtype=float), np.array(V, dtype=float)
             uvar, vvar = np.array(force.variables["u"], dtype=float), np.array(force.variables["v"], dtype=float)
+            if P > 2:
+                # the same through the real Tracker (Euler forward, one step) with the FIRST particle inactive: every
+                # other particle that moves must move by ITS OWN velocity (its own position, its own depth bracket)
+                from ladim.tracker import Tracker
+
+                tr = Tracker(advection="EF", modules=mods)
+                act = np.ones(P, dtype=bool)
+                act[0] = False
+                stt["active"] = act
+                X0, Y0 = np.array(stt.X, dtype=float), np.array(stt.Y, dtype=float)
+                mx, my = grid.metric(X0, Y0)
+                tr.update()
+                X1, Y1 = np.array(stt.X, dtype=float), np.array(stt.Y, dtype=float)
+                for n in range(P):
+                    moved = X1[n] != X0[n] or Y1[n] != Y0[n]
+                    if n == 0 and moved:
+                        problems.append(f"inactive particle moved from ({X0[0]},{Y0[0]}) to ({X1[0]},{Y1[0]})")
+                    if n > 0 and moved and stt.alive[n]:
+                        wx, wy = X0[n] + U[n] * 600.0 / float(mx[n]), Y0[n] + V[n] * 600.0 / float(my[n])
+                        if abs(X1[n] - wx) > 1e-9 * (1 + abs(wx)) or abs(Y1[n] - wy) > 1e-9 * (1 + abs(wy)):
+                            problems.append(f"tracker moved particle {n} (first particle inactive) from ({X0[n]},{Y0[n]}) depth {Z[n]} to ({X1[n]},{Y1[n]}); "
+                                            f"with the velocity interpolated at its own position and depth it goes to ({wx},{wy}): subgrid={spec}")
+                            break
+                stt["X"], stt["Y"] = X0, Y0
+                stt["active"] = np.ones(P, dtype=bool)
+                stt["alive"] = np.ones(P, dtype=bool)
             tvar = np.array(force.variables["temp"], dtype=float)
             Kc, Ac = np.array(force.K), np.array(force.A, dtype=float)
             zr = np.array(grid.z_r)
